@@ -2,7 +2,7 @@
 import re
 
 import anchors
-from core import (BA, call_matches, callee_paths, op_local, op_place, op_const, const_int, const_str, place_fields, taint,
+from core import (BA, FAL, call_matches, callee_paths, op_local, op_place, op_const, const_int, const_str, place_fields, taint,
                   str_consts, upvar_index, closure_sites)
 from facts import strip_generics
 from rules import common
@@ -52,42 +52,51 @@ def run(ctx):
     nexts = wba.calls(r".*::iterator::Iterator>?::next")
     if ctx.ob("R13.2", "%s|anchors" % W.key, len(ex) == 1 and bool(pr) and bool(nexts), where=W.span, detail="exists test, print and loop located"):
         sw, t_t, f_t, cbb = ex[0]
-        ctx.ob("R13.2", "%s|print-before-test" % W.key, all(wba.dominates(p, cbb) for p in pr), where=ctx.where(W, pr[0]), detail="each candidate is printed before its existence test")
-        common.not_reach(ctx, "R13.2", "%s|first-existing-ends-listing" % W.key, W, [t_t], nexts, "an existing candidate ends the listing", "whichdo keeps listing after the first existing candidate")
+        # (dominance over *feasible* paths: when printing sits in a helper that can fail, the helper's error return
+        # joins its normal return before the caller's `?` splits them again; no execution goes helper-Err -> Continue)
+        wfa = FAL.of(W)
+        ctx.ob("R13.2", "%s|print-before-test" % W.key, all(wfa.dominates(p, cbb) for p in pr), where=ctx.where(W, pr[0]), detail="each candidate is printed before its existence test")
+        common.not_reach_fl(ctx, "R13.2", "%s|first-existing-ends-listing" % W.key, W, [t_t], nexts, "an existing candidate ends the listing", "whichdo keeps listing after the first existing candidate")
         oks = common.ok_returns(W)
-        ctx.ob("R13.2", "%s|existing=>Ok" % W.key, any(wba.edge_dominates((sw, t_t), o) for o in oks), where=ctx.where(W, sw), detail="the existing side returns Ok")
-        p = wba.path([f_t], oks, avoid=frozenset(nexts), incl=True)
+        # (the outcome may travel to the `Ok(())` through a value - `return Ok(Found)` in a helper, matched by the caller:
+        # what is required is that an Ok return is reached only through the exists side, on the paths that can execute)
+        ctx.ob("R13.2", "%s|existing=>Ok" % W.key, any(wfa.edge_dominates((sw, t_t), o) for o in oks), where=ctx.where(W, sw), detail="the existing side returns Ok")
+        p = wfa.path([f_t], oks, avoid=frozenset(nexts), incl=True)
         ctx.ob("R13.2", "%s|missing=>continue" % W.key, p is None, where=ctx.where(W, sw), detail="a missing candidate continues the loop")
-        # printed path and tested path are the same join
+        # printed path and tested path are the same join: the tested path is the value (a call result, today
+        # `do_dir.join(do_file)`) the operand of exists() goes back to by direct steps, whatever it is called
         a_ex, _, _ = backward_direct(W, op_local(W.blocks[cbb]["term"]["args"][0]))
-        tnt = taint(W, seeds={l for l in a_ex if W.local_name(l) == "do_path"} or a_ex, mode="derived")
+        roots = {root[1] for (root, fields) in common.operand_origin_paths(W, W.blocks[cbb]["term"]["args"][0]) if root[0] == "def"}
+        tnt = taint(W, seeds=roots or a_ex, mode="derived")
         arg = op_local(W.blocks[pr[0]]["term"]["args"][0])
         ctx.ob("R13.2", "%s|prints-the-tested-path" % W.key, arg in tnt, where=ctx.where(W, pr[0]), detail="the printed line derives from the path that is tested")
     # (find_do_file's side is R2.5, evaluated under C02 and repeated here as R13.5)
-    from rules import C02
+    # Stated on values and feasible paths, not on the number of add_dep call sites: each candidate's edge mode is
+    # *chosen* by the existence test (a `DepMode::Modified` value is built only on the exists side, `Created` only on
+    # the missing side, and nothing else ever reaches add_dep's mode operand); whether the two modes are two literal
+    # calls or one call fed by a local makes no difference.
     fba = BA.of(F)
+    ffa = FAL.of(F)
     exf = fba.switches_on_call(r"std::path::Path::exists")
     adds = fba.calls(r"state::File::add_dep")
     ok = False
-    if len(exf) == 1 and len(adds) == 2:
+    created_adds = []
+    if len(exf) == 1 and adds:
         sw, t_t, f_t, cbb = exf[0]
-        m = {a: (op_const(F.blocks[a]["term"]["args"][2]) or {}).get("variant") for a in adds}
-        for a in adds:
-            if m[a] is None:
-                d = fba.single_def(op_local(F.blocks[a]["term"]["args"][2]))
-                if d and d[0] == "stmt" and d[3]["k"] == "agg":
-                    m[a] = d[3].get("variant")
-        ta = [a for a in adds if fba.edge_dominates((sw, t_t), a)]
-        fa = [a for a in adds if fba.edge_dominates((sw, f_t), a)]
+        modes = {a: _mode_origins(F, a) for a in adds}
         somes = common.blocks_with_agg(F, r"core::option::Option", "Some")
-        ok = len(ta) == 1 and len(fa) == 1 and m[ta[0]] == "Modified" and m[fa[0]] == "Created" and any(fba.edge_dominates((sw, t_t), s) for s in somes)
+        all_o = [o for a in adds for o in modes[a]]
+        resolved = all(modes[a] and all(v in ("Modified", "Created") for (v, _) in modes[a]) for a in adds)
+        sided = all(ffa.edge_dominates((sw, t_t) if v == "Modified" else (sw, f_t), bb) for (v, bb) in all_o)
+        both = {v for (v, _) in all_o} == {"Modified", "Created"}
+        created_adds = [a for a in adds if any(v == "Created" for (v, _) in modes[a])]
+        ok = resolved and sided and both and any(ffa.edge_dominates((sw, t_t), s_) for s_ in somes)
     ctx.ob("R13.5", "%s|chosen=Modified,earlier=Created,first-wins" % F.key, ok, where=F.span, detail="existing candidate: Modified edge + return; missing: Created edge + continue")
-    if len(exf) == 1 and len(adds) == 2:
+    if len(exf) == 1 and adds:
         sw, t_t, f_t, cbb = exf[0]
         nxt = fba.calls(r".*::iterator::Iterator>?::next")
-        fa2 = [a for a in adds if fba.edge_dominates((sw, f_t), a)]
-        common.mpt(ctx, "R13.5", "%s|every-missing-candidate-recorded" % F.key, F, [f_t], nxt + common.ok_returns(F), fa2,
-                   "every candidate found missing gets its Created edge before the search goes on", "a missing higher-priority candidate can be skipped without a Created edge: creating it later does not rebuild the target")
+        common.mpt_fl(ctx, "R13.5", "%s|every-missing-candidate-recorded" % F.key, F, [f_t], nxt + common.ok_returns(F), created_adds,
+                     "every candidate found missing gets its Created edge before the search goes on", "a missing higher-priority candidate can be skipped without a Created edge: creating it later does not rebuild the target")
     P = prog.one(r"paths::possible_do_files")
     pba = BA.of(P)
     np_ = pba.calls(r"helpers::normpath")
@@ -147,7 +156,11 @@ def run(ctx):
         ex = cba.calls(r"nix::unistd::execvp")
         # the captured DoFile: the closure variable(s) bound, at the construction site in start_self, to a
         # local of type DoFile (whatever the variable is called, however many reborrows lie in between)
-        df_up = common.upvars_bound_to(SS, cl.key, lambda l: re.fullmatch(r"(&(mut )?)*paths::DoFile", SS.locals[l]) is not None)
+        # ... to the value find_do_file returned (followed by direct flow: through `?`, the Some payload, moves, and a
+        # struct the DoFile was put into, e.g. a prepared-command record captured as a whole; the field test below
+        # then selects the DoFile's own fields inside whatever was captured)
+        df_t = taint(SS, seeds={SS.blocks[i]["term"]["dest"]["l"] for i in sba.calls(r"paths::find_do_file")}, mode="direct")
+        df_up = common.upvars_bound_to(SS, cl.key, common.in_set(SS, df_t))
 
         def from_df(o, field):
             return any(root[0] == "upvar" and root[1] in df_up and field in fields for (root, fields) in common.operand_origin_paths(cl, o))
@@ -185,6 +198,26 @@ def run(ctx):
             argv_up = common.upvars_bound_to(SS, cl.key, lambda l: l in argv_t)
             tv = taint(cl, src_place=lambda p: (upvar_index(p) or (None, None))[0] in argv_up, mode="derived")
             ctx.ob("R13.4", "%s|exec-argv-is-built-argv" % cl.key, a in tv, where=ctx.where(cl, ex[0]), detail="execvp receives the argv built in start_self")
+
+
+def _mode_origins(body, call_bb):
+    """[(variant name | None, block)] where the DepMode value handed to the add_dep call at `call_bb` is chosen: the
+    call itself for a constant operand, else the blocks building the value (followed through locals that are
+    assigned on several paths and through Option/Result wrappers); None for an origin that is not a literal variant."""
+    a = body.blocks[call_bb]["term"]["args"][2]
+    c = op_const(a)
+    if c is not None:
+        return [(c.get("variant"), call_bb)]
+    l = op_local(a)
+    if l is None or op_place(a)["p"]:
+        return [(None, call_bb)]
+    out = []
+    for kind, bb, rv in common.value_origins(body, l):
+        if kind == "agg" and rv.get("adt") == "state::DepMode":
+            out.append((rv.get("variant"), bb))
+        else:
+            out.append((None, bb if bb is not None else call_bb))
+    return out
 
 
 def _str_origin(body, l):
